@@ -38,6 +38,10 @@ def gen(tier, seed):
                 continue
             yield {'mesh': mesh, 'start_index': si, 'fill': fill, 'transposed': tr, 'tables': list(tables),
                    'edge_dimension': edge_dimension, 'coords_as': coords_as, 'edge_order': edge_order}
+    for mesh in meshes:     # a supplied edge-face table whose boundary edges are stored as [missing, face]; face-face derived from it
+        for fill, si in (('int_fill', 0), ('nan', 1)):
+            yield {'mesh': mesh, 'start_index': si, 'fill': fill, 'transposed': False, 'tables': ['edge_node', 'edge_face'], 'edge_dimension': 'auto',
+                   'coords_as': 'vars', 'edge_order': 'first-seen', 'edge_face_missing_first': True}
     for mesh in meshes:     # tables with their own index base
         for fill in ('auto', 'nan'):
             yield {'mesh': mesh, 'start_index': 1, 'fill': fill, 'transposed': False, 'tables': ['edge_node', 'face_edge', 'edge_face', 'face_face'], 'edge_dimension': 'auto',
@@ -87,7 +91,7 @@ def test_fill(inp):
 def build(inp):
     m = inp['mesh']
     kw = {k: inp[k] for k in ('start_index', 'fill', 'transposed', 'edge_dimension', 'coords_as', 'edge_order')}
-    for k in ('two_name', 'edge_transposed', 'face_dimension_attr'):
+    for k in ('two_name', 'edge_transposed', 'face_dimension_attr', 'edge_face_missing_first'):
         if k in inp:
             kw[k] = inp[k]
     ds = datasets.ugrid(m['ny'], m['nx'], split=tuple(map(tuple, m['split'])), merge=tuple(map(tuple, m['merge'])), tables=tuple(inp['tables']),
